@@ -324,6 +324,14 @@ func needSep(prev, next string) bool {
 	a, _ := utf8.DecodeLastRuneInString(prev)
 	b, _ := utf8.DecodeRuneInString(next)
 	if isIdentRune(a) && isIdentRune(b) {
+		// `"a"ib` is the literal "a"i followed by the rule b: after the ignore-case suffix of a literal or a class an
+		// identifier may follow at once (both front-ends take the `i` greedily)
+		if a == 'i' && len(prev) >= 2 {
+			switch prev[len(prev)-2] {
+			case '"', '\'', '`', ']':
+				return false
+			}
+		}
 		return true
 	}
 	// the ignore-case suffix of a literal or a class
